@@ -4,20 +4,28 @@ import PytezosModel.Proofs.C12
 Mirror: `Impl.PyConv` (`get_type_layout`, `wrap_pair`, `wrap_or`, `iter_type_args`, `iter_values`, every
 `to_python_object` / `from_python_object` of the modelled types, `ContractData.decode` / `encode`), instantiated with
 the configuration `cfg?` the translator reads from the source now (is the `Unit` sentinel hashable, is
-`PairType.__lt__` lexicographic).
+`PairType.__lt__` lexicographic; there is a configuration only if the name generator of `get_type_layout` has the
+repaired shape the mirror follows).
 
 FULL statement (properties.jsonl): for every storage or parameter type τ and every value v of it
 `from_python_object(to_python_object(v)) = v`; the contract-level encode and decode are mutual inverses; the field
 names used in Python objects are unique and stable for a given type.
 
-The full statement is FALSE on the code — see `option_option_counterexample` (inherent to the documented mapping) and
-`name_collision_counterexample` / `name_collision_or_counterexample` (a generated `prim_i` name can equal a declared
-one).  What is proved is the statement under the decidable guard `PyInvertible c τ` (`Spec.PyConv.inv`), which excludes
-exactly: `option (option _)`; a pair (outside key position) or union whose layout has two equal field names;
-non-comparable types in key position; and — only while the source has the corresponding defect — key / element types
-whose object contains `Unit` (no `__hash__`) and sets of pairs (`PairType.__lt__` not lexicographic).  Both
-source-dependent exclusions are vacuous for the configuration `source_shape` pins.  No depth bound anywhere: the proofs
-are by induction over the type (and over the lists inside values). -/
+The full statement is FALSE on the code in one class only — see `option_option_counterexample` (inherent to the
+documented mapping: `Some None` and `None` are both Python `None`).  What is proved is the round trip under the
+decidable guard `PyInvertible c τ` (`Spec.PyConv.inv`), which excludes exactly:
+* `option (option _)` anywhere in the type (the counter-example above; open finding, not repairable without changing
+  the documented mapping);
+* a list / set / map / big_map in key position (set element, map / big_map key) — not a type at all: Michelson
+  rejects it, `to_python_object(comparable=True)` asserts;
+* only while the source has the corresponding defect (both vacuous for the configuration `source_shape` pins): key /
+  element types whose object contains `Unit` (no `__hash__`) and sets of pairs (`PairType.__lt__` not lexicographic).
+Field names are NOT part of the guard any more: `get_type_layout` (repaired, fixes/C12-1) makes every generated
+`prim_i` name different from all declared names, so `field_names_unique` holds for EVERY type with no hypothesis, and
+the former counter-examples `pair (nat %nat_1) nat`, `or (nat %string_1) string` now convert back
+(`name_collision_repaired`, `name_collision_or_repaired`).  `source_shape` does not close when the name generator has
+the old shape again (`Generated.C12.generatedNamesFresh = some false`).  No depth bound anywhere: the proofs are by
+induction over the type (and over the lists inside values). -/
 namespace C12
 open Impl.PyConv Spec.PyConv
 
@@ -52,24 +60,30 @@ theorem toPy_injective_partial (c : Cfg) (hc : cfg? = some c) (τ : Ty) (u v : V
   rw [h1] at h2
   exact Except.ok.inj h2
 
-/-- field names are unique: in the layout of an invertible pair / union no name occurs twice -/
-theorem field_names_unique (c : Cfg) (τ : Ty) (hτ : PyInvertible c τ) :
+/-- field names are unique: in the layout of ANY pair / union node no name occurs twice — no guard: declared names that
+look like generated ones (`pair (nat %nat_1) nat`), duplicates, empty names, `:type` names, any nesting -/
+theorem field_names_unique (τ : Ty) :
     match τ with
     | .pair a l r => ∀ p2k, (pairLayout (.pair a l r)).pathToKey = some p2k → (p2k.map (·.2)).Nodup
     | .or a l r => ∀ p2k, (orLayout (.or a l r)).pathToKey = some p2k → (p2k.map (·.2)).Nodup
     | _ => True := by
   cases τ with
-  | pair a l r =>
-    intro p2k hp
-    unfold PyInvertible at hτ
-    simp only [inv, Bool.and_eq_true, Bool.false_or, namesNodup, hp, decide_eq_true_eq] at hτ
-    exact hτ.1.1
-  | or a l r =>
-    intro p2k hp
-    unfold PyInvertible at hτ
-    simp only [inv, Bool.and_eq_true, namesNodup, hp, decide_eq_true_eq] at hτ
-    exact hτ.1.1
+  | pair a l r => exact fun p2k hp => getTypeLayout_names_nodup _ _ p2k hp
+  | or a l r => exact fun p2k hp => getTypeLayout_names_nodup _ _ p2k hp
   | _ => trivial
+
+/-- the same for `get_type_layout` itself, whatever the list of flattened arguments is -/
+theorem layout_names_unique (flat : List (Path × Ty)) (inferNames : Bool) (p2k : List (Path × String))
+    (h : (getTypeLayout flat inferNames).pathToKey = some p2k) : (p2k.map (·.2)).Nodup :=
+  getTypeLayout_names_nodup flat inferNames p2k h
+
+/-- the repair changes no name that was usable: when the names of the first loop (declared name at its first occurrence,
+else `prim_i` — the names of the pinned tree) are already pairwise different, they are the names of the layout -/
+theorem field_names_unchanged_without_collision (flat : List (Path × Ty)) (inferNames : Bool)
+    (p2k : List (Path × String)) (h : (getTypeLayout flat inferNames).pathToKey = some p2k)
+    (hn : ((layoutGo flat 0 []).map (·.2.1)).Nodup) :
+    p2k = (layoutGo flat 0 []).map fun e => (e.1, e.2.1) := by
+  rw [getTypeLayout_p2k flat inferNames p2k h]; exact layout_unchanged_of_nodup flat hn
 
 /-- field names are stable: the layout is a function of the type alone (`pairLayout τ`), and the record every value
 of a named pair converts to has exactly the layout's names as keys, in the layout's order -/
@@ -103,22 +117,38 @@ theorem option_option_counterexample :
     ∧ inv cfgNow false (.option {} (.option {} natT)) = false := by
   decide +kernel
 
-/-- `pair (nat %nat_1) nat`: the generated name of the second component is `nat_1` too; the record loses a field and
-does not convert back -/
-theorem name_collision_counterexample :
-    (pairLayout (.pair {} (.scalar { field := some "nat_1" } .nat) natT)).pathToKey = some [([false], "nat_1"), ([true], "nat_1")]
+/-! ### the former name-collision class: unique names and a round trip now -/
+
+/-- `pair (nat %nat_1) nat` (pinned tree: names `nat_1`, `nat_1`, record `{'nat_1': 2}`, KeyError on the way back) -/
+theorem name_collision_repaired :
+    (pairLayout (.pair {} (.scalar { field := some "nat_1" } .nat) natT)).pathToKey = some [([false], "nat_1"), ([true], "nat_1_")]
     ∧ okPy (toPy cfgNow false (.pair {} (.scalar { field := some "nat_1" } .nat) natT) (.pair (.int 1) (.int 2)))
-        (.record [("nat_1", .int 2)]) = true
-    ∧ isErr (ofPy cfgNow (.pair {} (.scalar { field := some "nat_1" } .nat) natT) (.record [("nat_1", .int 2)])) .key = true
-    ∧ inv cfgNow false (.pair {} (.scalar { field := some "nat_1" } .nat) natT) = false := by
+        (.record [("nat_1", .int 1), ("nat_1_", .int 2)]) = true
+    ∧ okVal (ofPy cfgNow (.pair {} (.scalar { field := some "nat_1" } .nat) natT) (.record [("nat_1", .int 1), ("nat_1_", .int 2)]))
+        (.pair (.int 1) (.int 2)) = true
+    ∧ inv cfgNow false (.pair {} (.scalar { field := some "nat_1" } .nat) natT) = true := by
   decide +kernel
 
-/-- `or (nat %string_1) string`: `Left 1` renders as `{'string_1': 1}`, which is decoded against the right branch -/
-theorem name_collision_or_counterexample :
-    okPy (toPy cfgNow false (.or {} (.scalar { field := some "string_1" } .nat) (.scalar {} .string)) (.left (.int 1)))
+/-- the declared name comes AFTER the argument whose generated name it equals: `pair nat (nat %nat_0)`; and a declared
+name that equals the first way out as well: `pair (nat %nat_1) (pair nat (nat %nat_1_))` -/
+theorem name_collision_later_repaired :
+    (pairLayout (.pair {} natT (.scalar { field := some "nat_0" } .nat))).pathToKey = some [([false], "nat_0_"), ([true], "nat_0")]
+    ∧ (pairLayout (.pair {} (.scalar { field := some "nat_1" } .nat)
+        (.pair {} natT (.scalar { field := some "nat_1_" } .nat)))).pathToKey
+        = some [([false], "nat_1"), ([true, false], "nat_1__"), ([true, true], "nat_1_")] := by
+  decide +kernel
+
+/-- `or (nat %string_1) string` (pinned tree: `Left 1` rendered as `{'string_1': 1}` and decoded against the right branch) -/
+theorem name_collision_or_repaired :
+    (orLayout (.or {} (.scalar { field := some "string_1" } .nat) (.scalar {} .string))).pathToKey
+        = some [([false], "string_1"), ([true], "string_1_")]
+    ∧ okPy (toPy cfgNow false (.or {} (.scalar { field := some "string_1" } .nat) (.scalar {} .string)) (.left (.int 1)))
         (.record [("string_1", .int 1)]) = true
-    ∧ isErr (ofPy cfgNow (.or {} (.scalar { field := some "string_1" } .nat) (.scalar {} .string)) (.record [("string_1", .int 1)])) .assertion = true
-    ∧ inv cfgNow false (.or {} (.scalar { field := some "string_1" } .nat) (.scalar {} .string)) = false := by
+    ∧ okVal (ofPy cfgNow (.or {} (.scalar { field := some "string_1" } .nat) (.scalar {} .string)) (.record [("string_1", .int 1)]))
+        (.left (.int 1)) = true
+    ∧ okPy (toPy cfgNow false (.or {} (.scalar { field := some "string_1" } .nat) (.scalar {} .string)) (.right (.str "a")))
+        (.record [("string_1_", .str "a")]) = true
+    ∧ inv cfgNow false (.or {} (.scalar { field := some "string_1" } .nat) (.scalar {} .string)) = true := by
   decide +kernel
 
 /-- what the source-dependent exclusions guard against: without `unit.__hash__` a set of units does not convert back -/
@@ -139,6 +169,13 @@ def storageV : Val :=
     (.pair (.pair (.str "alice") .none) (.right .unit))
 
 example : PyInvertible cfgNow storageT := by decide +kernel
+-- `field_names_unique` / `field_names_unchanged_without_collision`: a layout with names exists, the no-collision
+-- hypothesis holds for the storage above (its names are the old ones) and fails for `pair (nat %nat_1) nat`
+example : (pairLayout storageT).pathToKey = some [([false], "ledger"), ([true, false], "admin"), ([true, true], "state")] := by
+  decide +kernel
+example : ((layoutGo (pairArgs storageT) 0 []).map (·.2.1)).Nodup := by decide +kernel
+example : ¬ ((layoutGo (pairArgs (.pair {} (.scalar { field := some "nat_1" } .nat) natT)) 0 []).map (·.2.1)).Nodup := by
+  decide +kernel
 example : okPy (toPy cfgNow false storageT storageV)
     (.record [("ledger", .dict [(.tuple [.str "alice", .int 0], .int 10), (.tuple [.str "bob", .int 1], .int 5)]),
               ("admin", .record [("current", .str "alice"), ("pending", .none)]), ("state", .str "paused")]) = true := by
